@@ -259,6 +259,14 @@ HandProg(name) ==
                            SLD("struct", "S", <<Field("l", Ref("", "T"), NoV), Field("a", Ref("a", "T"), NoV), Field("b", Ref("b", "T"), NoV)>>)>>),
                       F1("a.thrift", "a", <<3>>, <<TypedefD("T", Ref("b", "T"))>>),
                       F1("b.thrift", "b", <<>>, <<EnumD("T", <<"V1">>)>>)>>]
+    [] name = "same-alias-typedefs" ->         \* three DIFFERENT typedefs called Tag, all referred to from m
+         [files |-> <<F1("m.thrift", "m", <<2, 3>>,
+                         <<TypedefD("Tag", Base("string")),
+                           SLD("struct", "S", <<Field("l", Ref("", "Tag"), NoV), Field("a", Ref("a", "Tag"), NoV),
+                                                Field("b", ListT(Ref("b", "Tag")), NoV), Field("l2", ListT(Ref("", "Tag")), NoV),
+                                                Field("a2", MapT(Ref("", "Tag"), Ref("a", "Tag")), NoV)>>)>>),
+                      F1("a.thrift", "a", <<>>, <<SLD("struct", "TagInfo", <<>>), TypedefD("Tag", Ref("", "TagInfo"))>>),
+                      F1("b.thrift", "b", <<>>, <<EnumD("TE", <<"V1">>), TypedefD("Tag", Ref("", "TE"))>>)>>]
     [] name = "bool-idents" ->
          [files |-> <<F1("m.thrift", "m", <<>>, <<ConstD("B1", Base("bool"), VId(<<"true">>)), ConstD("B2", Base("bool"), VId(<<"false">>)),
                                                    ConstD("B3", Base("bool"), VId(<<"B1">>))>>)>>]
@@ -285,7 +293,8 @@ UsedHandNames == {"used-by-extends", "used-by-const", "used-by-enum-value", "use
 HandNames == UsedHandNames \cup {"transitive-type", "transitive-value", "undefined-local", "const-as-type", "service-as-type", "typedef-cycle",
               "typedef-cycle-across", "extends-struct", "extends-missing-inc", "inc-missing-type", "enum-value-missing",
               "inc-enum-value-missing", "bare-enum-value", "struct-dot-value", "dup-names",
-              "deep-containers", "local-td-of-included-enum", "same-name-everywhere", "bool-idents", "unused-include"}
+              "deep-containers", "local-td-of-included-enum", "same-name-everywhere", "same-alias-typedefs", "bool-idents",
+              "unused-include"}
 
 Build(m) == IF m.fam = "gen" THEN BuildGen(m) ELSE IF m.name \in UsedHandNames THEN UsedHand(m.name) ELSE HandProg(m.name)
 
